@@ -31,7 +31,7 @@ def run():
     from nbdime.patching import patch
     from nbdime.merging.notebooks import decide_notebook_merge
     from nbdime.merging.decisions import apply_decisions
-    chk = Check("C15")
+    chk = Check("C15", level="translation_validation")
     mergedrv.quiet_logging()
     corp = Corpus(chk)
     r = common.rng("c15")
@@ -145,7 +145,12 @@ def run():
             elif c == "TsApplied":
                 chk.violation("ts-decisions:result-differs", "TypeScript applyDecisions gives another merged notebook than Python's apply_decisions",
                               {"triple": ev["tid"], "script": info_of[ev["tid"]].get("script")})
-    chk.notes["programs"] = {"tlc_wellformed_doc_diff": nwf, "differ_produced_diffs": len(events) - nwf, "decision_lists": len(lines)}
+    chk.notes["program_counts"] = {"tlc_wellformed_doc_diff": nwf, "differ_produced_diffs": len(events) - nwf,
+                                   "decision_lists": len(lines)}
+    chk.cov["programs"] = len(events) + len(lines)
+    # every disagreement between the two implementations is examined (classified against known findings / reported)
+    chk.cov["disagreements_checked"] = sum(1 for cl in v.fails.values() if any(c in DIFF_CLAUSES for c in cl)) + \
+        sum(1 for cl in mv.fails.values() if any(c in ("TsApplied", "TsAccepts") for c in cl))
     chk.sample({"patch_program": jobs[0]})
     chk.sample({"decision_program_triple": triples[0][0], "script": triples[0][4].get("script")})
     chk.cov["rule"] = ("programs: (doc, diff) of every TLC-generated well-formed case (sampled to 3000 per universe in quick), random generic "
